@@ -1,6 +1,7 @@
 package c11
 
 import (
+	"fmt"
 	"time"
 
 	"verifharness/fakenet"
@@ -56,9 +57,50 @@ func slowKind(class string) string {
 		return "share"
 	case "p2p:deal_bundle":
 		return "deal"
+	case "p2p:resp_bundle":
+		return "resp"
 	}
 
 	return ""
+}
+
+var slowKindIdx = map[string]int{"share": 0, "deal": 1, "resp": 2}
+
+// slowEvt aggregates the deliveries of one kind of bundle of one validator to one node.
+type slowEvt struct {
+	started, done       int
+	lastStart, lastDone time.Time
+}
+
+// slowDelivery is called by deliver() before an envelope of a slow-link ceremony is handed to its
+// receiver; the returned function is called (from the delivery goroutine) when the handler returned.
+func (s *sched) slowDelivery(e *fakenet.Envelope, class string) func() {
+	kind := slowKind(class)
+	if kind == "" {
+		return nil
+	}
+	s.mu.Lock()
+	ord, ok := s.slowOrd[e]
+	if !ok {
+		s.mu.Unlock()
+		return nil
+	}
+	key := [3]int{slowKindIdx[kind], s.idx[e.To], ord}
+	ev := s.slowEv[key]
+	if ev == nil {
+		ev = &slowEvt{}
+		s.slowEv[key] = ev
+	}
+	ev.started++
+	ev.lastStart = time.Now()
+	s.mu.Unlock()
+
+	return func() {
+		s.mu.Lock()
+		ev.done++
+		ev.lastDone = time.Now()
+		s.mu.Unlock()
+	}
 }
 
 // slowNote is called by the policy (sender goroutine) for every envelope of a slow-link ceremony:
@@ -72,7 +114,7 @@ func (s *sched) slowNote(e *fakenet.Envelope, now time.Time) {
 	}
 	from, to := s.idx[e.From], s.idx[e.To]
 	s.mu.Lock()
-	key := [3]int{from, to, map[string]int{"share": 0, "deal": 1}[kind]}
+	key := [3]int{from, to, slowKindIdx[kind]}
 	ord := s.slowCount[key]
 	s.slowCount[key] = ord + 1
 	s.slowOrd[e] = ord
@@ -122,8 +164,55 @@ func (s *sched) slowRelease(e *fakenet.Envelope) (time.Time, string, bool) {
 	return time.Time{}, "", false
 }
 
-// slowGuard evaluates, from the measured times, whether the placement stayed inside the model.
-func (s *sched) slowGuard() slowReport {
+// deadlineCheck evaluates, from the measured times, whether every bundle reached every node inside
+// that node's own phase deadlines: for every validator k and every node i, every deal bundle of k was
+// handled by i before start_i(k) + P and every response bundle before start_i(k) + 2P (each minus a
+// safety margin), where start_i(k) is a LOWER bound of the moment i started that DKG (k = 0: i's last
+// node-pubkey broadcast message left; k > 0: the last pubkey share of validator k-1 was handed to i).
+// A node that starts a validator late (delayed share) also deals late, and on a loaded machine that
+// alone can push its (undelayed) deals past a faster node's deadline. Called with s.mu held.
+func (s *sched) deadlineCheck(v int, ref time.Time) (bool, string) {
+	p := s.phaseP
+	safety := time.Duration(slowSafety * float64(p))
+	others := s.nNodes - 1
+	for k := 0; k < v; k++ {
+		for i := 0; i < s.nNodes; i++ {
+			var startLo time.Time
+			if k == 0 {
+				t, ok := s.slowPubkeySent[i]
+				if !ok {
+					return false, fmt.Sprintf("node %d: start of validator 0 not observed", i)
+				}
+				startLo = t
+			} else {
+				ev := s.slowEv[[3]int{slowKindIdx["share"], i, k - 1}]
+				if ev == nil || ev.started != others {
+					return false, fmt.Sprintf("node %d: start of validator %d not observed", i, k)
+				}
+				startLo = ev.lastStart
+			}
+			for _, c := range []struct {
+				kind   string
+				phases time.Duration
+			}{{"deal", 1}, {"resp", 2}} {
+				ev := s.slowEv[[3]int{slowKindIdx[c.kind], i, k}]
+				if ev == nil || ev.done != others {
+					return false, fmt.Sprintf("node %d validator %d: not all %s bundles seen handled", i, k, c.kind)
+				}
+				if limit := startLo.Add(c.phases*p - safety); ev.lastDone.After(limit) {
+					return false, fmt.Sprintf("node %d validator %d: last %s bundle handled %d ms after the safe limit (phase deadline minus %d ms; its DKG started at least %d ms after the reference start)",
+						i, k, c.kind, ev.lastDone.Sub(limit).Milliseconds(), safety.Milliseconds(), startLo.Sub(ref).Milliseconds())
+				}
+			}
+		}
+	}
+
+	return true, ""
+}
+
+// slowGuard labels a slow-link ceremony: did it stay inside the model (every delayed message inside
+// its receiver's own deadline, no message delayed by a full phase)?
+func (s *sched) slowGuard(v int) slowReport {
 	p := s.slow
 	s.mu.Lock()
 	defer s.mu.Unlock()
@@ -143,20 +232,79 @@ func (s *sched) slowGuard() slowReport {
 	ms := func(t time.Time) int64 { return t.Sub(yStart).Milliseconds() }
 	rep.DealSent, rep.DealDone, rep.YNext, rep.MinNext = ms(s.slowDealSent), ms(s.slowDealDone), ms(yNext), ms(minNext)
 	rep.DealDelay = s.slowDealDone.Sub(s.slowDealSent).Milliseconds()
-	safety := time.Duration(slowSafety * float64(p.P))
 	rep.Placed = s.slowDealDone.After(yStart.Add(p.P))
-	switch {
-	case s.slowDealDone.After(yNext.Add(p.P - safety)):
-		rep.Why = "delayed deal handled too close to (or after) Y's own deal deadline"
-	case s.slowDealDone.After(minNext.Add(2*p.P - 2*safety)):
-		rep.Why = "delayed deal handled too close to the first node's response deadline"
-	case s.slowDealDone.Sub(s.slowDealSent) >= p.P:
+	if s.slowDealDone.Sub(s.slowDealSent) >= p.P {
 		rep.Why = "deal was delayed by a full phase"
-	case s.slowShareLate:
-		rep.Why = "a delayed pubkey share was delivered a full phase after it was sent"
-	default:
-		rep.GuardOK = true
+		return rep
 	}
+	if s.slowShareLate {
+		rep.Why = "a delayed pubkey share was delivered a full phase after it was sent"
+		return rep
+	}
+	rep.GuardOK, rep.Why = s.deadlineCheck(v, yStart)
+
+	return rep
+}
+
+// latePlan is the deliberate late-bundle case class: the deal bundle of dealer D for validator K is
+// kept from node V until just after V's own deal deadline (V's first deal bundle of validator K on
+// the wire + P + margin; V's phase timer started before that bundle left), while it reaches every
+// other node at once. Nothing is lost, duplicated or failed; every other message is delivered eagerly.
+type latePlan struct {
+	D int           `json:"dealer_D"`
+	V int           `json:"late_receiver_V"`
+	K int           `json:"validator_K"`
+	P time.Duration `json:"phase_ns"`
+}
+
+const lateMargin = 0.1 // phases after V's deal deadline
+
+type lateReport struct {
+	PhaseMS       int64  `json:"phase_ms"`
+	DealSentMS    int64  `json:"deal_D_to_V_sent_ms_after_V_started_validator_K"`
+	DealHandledMS int64  `json:"deal_D_to_V_handled_ms_after_V_started_validator_K"`
+	AfterDeadline int64  `json:"handled_ms_after_V_deal_deadline"`
+	OthersGotIt   int64  `json:"last_other_node_handled_D_deal_ms_after_V_started_validator_K"`
+	InsideModel   bool   `json:"every_bundle_inside_receivers_own_deadline"`
+	Why           string `json:"guard_detail,omitempty"`
+}
+
+func (s *sched) lateRelease(e *fakenet.Envelope) (time.Time, bool) {
+	p := s.late
+	if slowKind(s.class(e)) != "deal" || s.idx[e.From] != p.D || s.idx[e.To] != p.V {
+		return time.Time{}, false
+	}
+	s.mu.Lock()
+	ord, ok := s.slowOrd[e]
+	vStart, vOK := s.slowStart[[2]int{p.V, p.K}]
+	s.mu.Unlock()
+	if !ok || ord != p.K {
+		return time.Time{}, false
+	}
+	if !vOK {
+		return time.Now().Add(time.Hour), true // V has not started that DKG yet: keep holding (capped by the watchdog)
+	}
+
+	return vStart.Add(p.P + time.Duration(lateMargin*float64(p.P))), true
+}
+
+func (s *sched) lateGuard(v int) lateReport {
+	p := s.late
+	s.mu.Lock()
+	defer s.mu.Unlock()
+	rep := lateReport{PhaseMS: p.P.Milliseconds()}
+	vStart, ok := s.slowStart[[2]int{p.V, p.K}]
+	if !ok || s.slowDealDone.IsZero() {
+		rep.Why = "late deal not observed"
+		return rep
+	}
+	rep.DealSentMS = s.slowDealSent.Sub(vStart).Milliseconds()
+	rep.DealHandledMS = s.slowDealDone.Sub(vStart).Milliseconds()
+	rep.AfterDeadline = s.slowDealDone.Sub(vStart.Add(p.P)).Milliseconds()
+	if !s.lateOthersDone.IsZero() {
+		rep.OthersGotIt = s.lateOthersDone.Sub(vStart).Milliseconds()
+	}
+	rep.InsideModel, rep.Why = s.deadlineCheck(v, vStart)
 
 	return rep
 }
